@@ -12,14 +12,14 @@ CONFIG = {
     'budget': {'quick': 30, 'thorough': 480},
     'rule': ('random programs decorated with in-place mutation statements on every value-carrying API edge: '
              'arguments inside the callee, arguments by the caller after the call, values returned by '
-             'build_file/subbuild (fresh and served from the cache), list_dir lists, walk outer list / subdirectory '
+             'build_file/subbuild (fresh and served from the cache), the object a callee returned and kept a reference to (edited by the callee side after the call), list_dir lists, walk outer list / subdirectory '
              'lists (pruning) / subfile lists - each with append / remove / clear / nested edit; in the reference '
              'model every hand-out is a copy, so the statements are no-ops there: results, trees and the '
              'justified invocation set of this and of >= 2 later builds (with and without an external change that '
              'would reveal a corrupted observation, e.g. really deleting the name removed from a listing) must equal '
              'the model; evaluations = builds judged; distinct_nontrivial = distinct (edge, mutation) pairs '
              'executed x (program shape)'),
-    'gates': ['mut:return-value', 'mut:callee-args', 'mut:caller-args', 'mut:list_dir-result',
+    'gates': ['mut:callee-retained-return', 'mut:return-value', 'mut:callee-args', 'mut:caller-args', 'mut:list_dir-result',
               'mut:walk-result', 'mutated_value_served_from_cache', 'reveal_deletions'],
 }
 
@@ -54,6 +54,8 @@ def decorate(rng, cfg, program):
                     o['kwargs'] = rng.choice([{}, {'k': [1, 2]}, {'j': {'a': [0]}}])
                 if rng.random() < 0.35:
                     o['mut_after'] = rng.choice(['append', 'remove', 'clear', 'edit', 'deep'])
+                if rng.random() < 0.3:
+                    o['mut_retained'] = rng.choice(['append', 'remove', 'clear', 'edit', 'deep'])
                 if rng.random() < 0.6:
                     kid[0] += 1
                     o['keep'] = 'v%d' % kid[0]
